@@ -1415,7 +1415,15 @@ fn process_fn(
         }
     }
     ChainPass { rules, specs: &mut chains, counts: BTreeMap::new(), counted: Default::default() }.visit_block_mut(block);
-    for c in &chains { if c.used == 0 && !c.soft { errors.push(format!("{}: lost anchor: method chain {} not found", path, c.chain.join("."))); } }
+    // An adapter whose method chain no longer occurs has nothing to adapt: the function is verified as it stands (if
+    // the code now uses an unsupported call instead, Verus says so and the run is undecided for that reason).  Only an
+    // adapter that addresses the N-th occurrence (`chain#N`) stays a hard anchor: its ordinal may now point elsewhere.
+    for c in &chains {
+        if c.used == 0 {
+            if c.nth.is_some() && !c.soft { errors.push(format!("{}: lost anchor: method chain {} not found", path, c.chain.join("."))); }
+            else { rules.hit(&format!("ADAPTER_UNUSED:{}", c.chain.join("."))); }
+        }
+    }
     // R14
     let mut wraps: Vec<WrapSpec> = vec![];
     if let Some(Value::Array(a)) = spec.get("wraps") {
